@@ -549,9 +549,11 @@ def normalise_windows(ex, st, v, depth=0, seen=None):
                 seen.add(c)
                 normalise_windows(ex, st, st.cells[c], depth + 1, seen)
         return
-    if v[1] == 'core::window::Window' and 'Window' in v[3]:
-        fl = v[3]['Window']
-        size = st.cells[fl['size']]
+    import wroles
+    WR = wroles.window_roles(ex.f)
+    if v[1] == 'core::window::Window' and WR.variant in v[3]:
+        fl = v[3][WR.variant]
+        size = st.cells[fl[WR.size]]
         if size[0] == 'int':
             lo, hi = ex.rng(st, size[2])
             one = ex.mk_const_int(st, size[1], 1)
@@ -561,9 +563,9 @@ def normalise_windows(ex, st, v, depth=0, seen=None):
             st.rel.add(('le', s1[2], size[2]))
             idx = ex.mk_int(st, size[1], 0, max(hi - 1, 0))
             st.rel.add(('le', idx[2], s1[2]))
-            st.cells[fl['s_1']] = s1
-            st.cells[fl['index']] = idx
-            st.cells[fl['buf']] = ('buf', size[2])
+            st.cells[fl[WR.last]] = s1
+            st.cells[fl[WR.cursor]] = idx
+            st.cells[fl[WR.buf]] = ('buf', size[2])
         return
     for vn, fs in v[3].items():
         for fn, c in fs.items():
@@ -572,15 +574,16 @@ def normalise_windows(ex, st, v, depth=0, seen=None):
                 normalise_windows(ex, st, st.cells[c], depth + 1, seen)
     if v[1] in ('methods::highest_lowest_index::HighestIndex', 'methods::highest_lowest_index::LowestIndex'):
         # invariant proved inductive by rule A06: the age kept by the arg-extremum methods is < their window's length
+        mr = WR.index_method(ex.f, v[1])
         for vn, fs in v[3].items():
-            if 'index' in fs and 'window' in fs:
-                w = st.cells[fs['window']]
-                if w[0] == 'adt' and 'Window' in w[3]:
-                    size = st.cells[w[3]['Window']['size']]
+            if mr and mr['age'] in fs and mr['window'] in fs:
+                w = st.cells[fs[mr['window']]]
+                if w[0] == 'adt' and WR.variant in w[3]:
+                    size = st.cells[w[3][WR.variant][WR.size]]
                     if size[0] == 'int' and ex.rng(st, size[2])[0] >= 1:
                         age = ex.mk_int(st, size[1], 0, max(ex.rng(st, size[2])[1] - 1, 0))
                         st.rel.add(('lt', age[2], size[2]))
-                        st.cells[fs['index']] = age
+                        st.cells[fs[mr['age']]] = age
 
 
 # overflow sites outside the generic decided kinds that the invariants now reach (function, prefix of the operation)
